@@ -637,10 +637,15 @@ func attrGen(fn string, xmlMode bool) func(r *Rng, tier string, emit func(Case))
 			v := genAttrVal(r, 1+i%20)
 			var buf []byte
 			var e []byte
-			if xmlMode {
-				e = xml.EscapeAttrVal(&buf, v)
-			} else {
-				e = html.EscapeAttrVal(&buf, v, []byte{0, '\'', '"'}[r.Intn(3)], r.Bool())
+			oq, mq := []byte{0, '\'', '"'}[r.Intn(3)], r.Bool()
+			if p := catch(func() {
+				if xmlMode {
+					e = xml.EscapeAttrVal(&buf, v)
+				} else {
+					e = html.EscapeAttrVal(&buf, v, oq, mq)
+				}
+			}); p != nil {
+				continue
 			}
 			b := append([]byte(" x="), e...)
 			emit(bytesCase(fn, nil, append(b, '>')))
@@ -890,7 +895,11 @@ func c17EscapeOracle(r *Rng, tier string, rep *Report) {
 				map[string]interface{}{"value": hx(v), "origQuote": oq, "mustQuote": mq, "observed": fmt.Sprint(obs), "expected": fmt.Sprint(exp)})
 		}
 		buf := bytes.Repeat([]byte{'#'}, len(v)%7)
-		out := append([]byte{}, html.EscapeAttrVal(&buf, exact(v), oq, mq)...)
+		var out []byte
+		if p := catch(func() { out = append([]byte{}, html.EscapeAttrVal(&buf, exact(v), oq, mq)...) }); p != nil {
+			fail("panic", p, "no panic")
+			return
+		}
 		// documented rule
 		singles, doubles := bytes.Count(v, []byte{'\''}), bytes.Count(v, []byte{'"'})
 		plain := bytes.IndexAny(v, htmlMustQuoteBytes) < 0
@@ -934,15 +943,19 @@ func c17EscapeOracle(r *Rng, tier string, rep *Report) {
 	xmlCheck := func(v []byte) {
 		key := fmt.Sprintf("xml-escape:%x", v)
 		buf := bytes.Repeat([]byte{'#'}, len(v)%7)
-		out := append([]byte{}, xml.EscapeAttrVal(&buf, exact(v))...)
+		fail := func(k, what string, obs, exp interface{}) {
+			rep.Violate(k, fmt.Sprintf("xml.EscapeAttrVal(%q): %s: observed %v expected %v", v, what, obs, exp),
+				map[string]interface{}{"value": hx(v), "observed": fmt.Sprint(obs), "expected": fmt.Sprint(exp)})
+		}
+		var out []byte
+		if p := catch(func() { out = append([]byte{}, xml.EscapeAttrVal(&buf, exact(v))...) }); p != nil {
+			fail(key+":panic", "panic", p, "no panic")
+			return
+		}
 		singles, doubles := bytes.Count(v, []byte{'\''}), bytes.Count(v, []byte{'"'})
 		want, cost := byte('"'), doubles
 		if doubles > singles {
 			want, cost = '\'', singles
-		}
-		fail := func(k, what string, obs, exp interface{}) {
-			rep.Violate(k, fmt.Sprintf("xml.EscapeAttrVal(%q): %s: observed %v expected %v", v, what, obs, exp),
-				map[string]interface{}{"value": hx(v), "observed": fmt.Sprint(obs), "expected": fmt.Sprint(exp)})
 		}
 		if len(out) < 2 || out[0] != want || out[len(out)-1] != want || len(out) != len(v)+2+4*cost {
 			fail(key+":quote", "quote choice / length", q(out), string(want))
@@ -978,7 +991,12 @@ func c17EscapeOracle(r *Rng, tier string, rep *Report) {
 	cdataCheck := func(v []byte) {
 		key := fmt.Sprintf("cdata:%x", v)
 		buf := bytes.Repeat([]byte{'#'}, len(v)%7)
-		out, ok := xml.EscapeCDATAVal(&buf, exact(v))
+		var out []byte
+		var ok bool
+		if p := catch(func() { out, ok = xml.EscapeCDATAVal(&buf, exact(v)) }); p != nil {
+			rep.Violate(key+":panic", fmt.Sprintf("EscapeCDATAVal(%q) panics: %v", v, p), map[string]interface{}{"value": hx(v)})
+			return
+		}
 		cost := 3*bytes.Count(v, []byte{'<'}) + 4*bytes.Count(v, []byte{'&'})
 		if !ok {
 			if !bytes.Equal(out, v) || cost <= len("<![CDATA[]]>") {
